@@ -70,3 +70,37 @@ func verifHarness_C01_ExclusiveHoldingDynamicQueue() {
 	}
 	r.drive(o, steps)
 }
+
+// Same, with both clients asking for ONE cacheable action from two invocations
+// below a common parent (in-flight deduplication: one task, two operations), so
+// that the per-invocation worker counts of shared ancestors are exercised.
+func verifHarness_C01_ExclusiveHoldingSharedTask() {
+	rt.PreemptionBound(0)
+	steps := 4
+	if rt.Tier() > 0 {
+		steps = 6
+	}
+	rt.Bound("steps", steps)
+	rt.MustCover("sync:new-task", "dedup:attached", "stream:done", "act:cancel")
+	r := vsNewRig(1)
+	p := vsPlatform("os", "linux")
+	rt.Assert(r.bq.RegisterPredeclaredPlatformQueue(digest.EmptyInstanceName, p, nil, 0, 0, []uint32{0}) == nil, "queue registered")
+	h := r.addAction(1, p, false)
+	r.addClient("", h, 0, "build", "target-a")
+	r.addClient("", h, 0, "build", "target-b")
+	r.addWorker("", p, 0, "w0")
+	o := &vsOpts{
+		maxExecs:    1,
+		cancel:      true,
+		idleKinds:   []int{vsSyncIdle},
+		syncKinds:   []int{vsSyncCompletedOK, vsSyncCompletedFailed, vsSyncIdle},
+		maxSyncs:    3,
+		advances:    []time.Duration{vsNoWaitersTimeout + time.Second},
+		maxAdvances: 1,
+	}
+	r.execute(r.clients[0])
+	o.execs = []int{1, 0}
+	rt.Quiesce()
+	r.walk()
+	r.drive(o, steps)
+}
